@@ -25,7 +25,7 @@ vlib.use_repo()          # `import kawin` below resolves to the tree under test 
 
 PROP = 'C19'
 META = {
-    'level_text': 'Lean 4 theorems, for any linearly ordered field and histories of every length, about an executable model of PrecipitationStoppingCondition (latch, _poll, testCondition), the and/or combination of KWNBase.postProcess, the DESolver loop, KWNBase.reset and TTPCalculator._getStopTime: latch (flag and reported time never change once satisfied), satisfied iff the monitored value was beyond the threshold on a tested row, reported time = linear interpolant and inside [t_prev, t_cur] for both inequalities, first-step case, stop iff (some or-condition satisfied) or (#and > 0 and all and-conditions satisfied), the loop ends at the first step with stop and otherwise at the first row at or beyond the end time (soundness and completeness), _poll reads row n / column phase-or-element of the named array for all six quantities, reset clears every latch and TTP times depend only on that temperature\'s run; and about the REGISTRATION STATE of one model through any history of addStoppingCondition / clearStoppingConditions / reset / solve / TTPCalculator(model, ...) calls (Reg, Op, Reg.after): the stop decision of a run is a function of the currently registered list and the latches of the registered objects only (stop_depends_on_registered_only), after a clear with no and-condition registered since the and-branch contributes false and a model with nothing registered runs to the end time (clear_then_no_and_never_stops, cleared_model_runs_to_end), the TTP constructor leaves exactly its own conditions registered in and-mode and its reported times do not depend on what the model carried before (ttp_sees_only_its_conditions), with witness theorems for a stale and-counter and for a constructor that keeps old conditions. The model is tied to the code on every run by differential correspondence (condition objects on stubs, scripted histories through the real solve/postProcess/reset/TTPCalculator, whole call histories on one model with a pool of condition objects, a real binary Al-Zr run and a real call history) and the property predicates are evaluated directly on pData histories and condition objects.',
+    'level_text': 'Lean 4 theorems, for any linearly ordered field and histories of every length, about an executable model of PrecipitationStoppingCondition (latch, _poll, testCondition), the and/or combination of KWNBase.postProcess, the DESolver loop, KWNBase.reset and TTPCalculator._getStopTime: latch (flag and reported time never change once satisfied), satisfied iff the monitored value was beyond the threshold on a tested row, reported time = linear interpolant and inside [t_prev, t_cur] for both inequalities, first-step case, stop iff (some or-condition satisfied) or (#and > 0 and all and-conditions satisfied), the loop ends at the first step with stop and otherwise at the first row at or beyond the end time (soundness and completeness), _poll reads row n / column phase-or-element of the named array for all six quantities, reset clears every latch and TTP times depend only on that temperature\'s run; and about the REGISTRATION STATE of one model through any history of addStoppingCondition / clearStoppingConditions / reset / solve / TTPCalculator(model, ...) calls (Reg, Op, Reg.after): the stop decision of a run is a function of the currently registered list and the latches of the registered objects only (stop_depends_on_registered_only), after a clear with no and-condition registered since the and-branch contributes false and a model with nothing registered runs to the end time (clear_then_no_and_never_stops, cleared_model_runs_to_end), the TTP constructor leaves exactly its own conditions registered in and-mode and its reported times do not depend on what the model carried before (ttp_sees_only_its_conditions), with witness theorems for a stale and-counter and for a constructor that keeps old conditions; reset() keeps the configuration of every population balance model (limits, class counts, adaptive and recording flags) and puts each on its configured initial grid, through any history, so every TTP temperature runs on the configured grid (reset_keeps_configuration, history_keeps_configuration, ttp_runs_on_configured_grid), with the witness reset_default_loses_configuration for a reset that replaces them by default ones (the code before repair 9231d6f). The model is tied to the code on every run by differential correspondence (condition objects on stubs, scripted histories through the real solve/postProcess/reset/TTPCalculator, whole call histories on one model with a pool of condition objects, a real binary Al-Zr run and a real call history) and the property predicates are evaluated directly on pData histories and condition objects.',
     'level_note': 'Trusted: Lean kernel + Mathlib, axioms propext/Classical.choice/Quot.sound; the hand model KawinV.StopCond equals the Python code only as far as this run compared them; exact-field arithmetic instead of IEEE doubles (the interpolated time can leave the step by rounding: oracle tolerance 1e-9 of the step); the sequence of rows and times of a run (time stepping, C05) is an input of the model, not derived; NaN monitored values are outside the statement. Modelled code is the repaired code (two fix: commits, see known_findings.txt).',
     'technique': 'Lean 4 proof over ordered fields + model/implementation differential correspondence + direct oracle on run histories',
     'design_ref': 'DESIGN.md section 6, C19',
@@ -34,7 +34,8 @@ LEAN_MODULES = ['KawinV.Props.C19']
 MONITORED = [
     'a real KWN run appends exactly one pData row per solver step and calls testCondition on every condition after every step (checked on the real run by comparing latches with the model replayed on the recorded pData history)',
     'TTPCalculator on the real model: history of each temperature starts at t = 0 with that temperature (reset + setTemperature took effect)',
-    'call histories: the times a TTPCalculator reports equal the first crossings of a run of the same configuration WITHOUT stopping conditions (reference run made through the same reset/setTemperature/solve calls; real model: thorough tier only, rtol 1e-6)',
+    'call histories: the times a TTPCalculator reports equal the first crossings of a FRESHLY CONSTRUCTED model of the same configuration (same builder incl. non-default setPBMParameters and setPSDrecording(True)), never reset, WITHOUT stopping conditions, run with the same setTemperature/solve call (real Al-Zr model in the quick tier: 1 temperature, rtol 1e-6)',
+    'reset() of the real PrecipitateModel (direct and inside TTPCalculator._getStopTime): walk of vars(model) before/after - only result arrays, population balance contents, stopping-condition latches and setup flags / scratch storage (RESET_MAY_CHANGE) may differ, everything else must be the same object with the same value; population balance configuration and grid compared with what the harness configured',
 ]
 ASSUMPTIONS = [
     'monitored values and times are finite (no NaN); times are non-decreasing along a run',
@@ -1598,7 +1599,7 @@ def corr(ctx, oracle_only=False, scale=1):
                 'synth: scripted histories through the real solve/postProcess with 0-6 conditions in and/or mixes, one or two solves, Euler and RK4; '
                 'comb: all 2^k x 2^k mode/satisfied patterns, k <= 4; ttp: TTPCalculator over 2-4 temperatures; real: binary Al-Zr KWN runs; '
                 'hist: one model + pool of 2-5 condition objects, 3-12 random calls of add (both modes) / clear / reset / solve / TTPCalculator construction / calculateTTP (1-3 temperatures) '
-                'ending in a run, evaluated against the oracle\'s own registration state and, for TTP, a reference run without conditions (scripted model; one real Al-Zr history). '
+                'ending in a run, evaluated against the oracle\'s own registration state and, for TTP, a freshly constructed never-reset reference model without conditions (scripted model; one real Al-Zr history with non-default population balance parameters: run, reset, calculateTTP, further runs; every reset() observed structurally). '
                 'non-trivial = at least two tested rows / at least one condition and no exception; distinct = (kind, seed)')
     # every part runs whatever happened in the others; inside a part every case has its own guard
     guard(res, 'part-combination', {}, part_combination, ctx, res, oracle_only)
